@@ -17,6 +17,7 @@ CONSTANTS
   MaxLevel = 100
   EmitJson = TRUE
   PruneOnlyOwned = FALSE
+  PushOnlyChanged = FALSE
   AtomicPush = TRUE
   FixSelect = TRUE
   FixDirect = TRUE
